@@ -40,6 +40,7 @@ func (t jsType) BlankConstructor() bool {
 // prototype represents a JavaScript prototype to generate.
 type prototype struct {
 	Value       string     `yaml:"value"`
+	Class       string     `yaml:"class"`
 	ObjectClass string     `yaml:"objectClass"`
 	Prototype   string     `yaml:"prototype"`
 	Properties  []property `yaml:"properties"`
